@@ -6,7 +6,7 @@ Import ListNotations.
 Open Scope string_scope.
 Eval vm_compute in ("modules", filter (fun s => negb (module_ok s)) modules).
 Eval vm_compute in ("iterate_sites", filter (fun s => negb (iterate_site_ok s)) iterate_sites).
-Eval vm_compute in ("unclipped_sites", unclipped_sites iterate_sites).
+Eval vm_compute in ("unclipped_sites (must be empty)", unclipped_sites iterate_sites).
 Eval vm_compute in ("eval_sites", filter (fun s => negb (eval_site_ok s)) eval_sites).
 Eval vm_compute in ("raise_sites", filter (fun s => negb (raise_ok s)) raise_sites).
 Eval vm_compute in ("assert_sites", filter (fun s => negb (assert_ok s)) assert_sites).
